@@ -439,6 +439,13 @@ def gen_scripts(cfg, tier, rng):
     for p1 in per:
         for p2 in per:
             scripts.append((ops[len(scripts) % 4], [p1, p2]))
+    # every walk step after a request that ended without a delivered reply (the exhaustive part above gives each pair one
+    # operation only): state kept per socket rather than per iterator shows here
+    for op in ("getnext1", "getbulk1", "get"):
+        for p1 in ([], ["late"], ["trunc"], ["version"], ["rid+1"], ["version", "ok"], ["trunc", "ok", "ok"], ["version", "dup"]):
+            for p2 in (["ok"], ["dup"], ["stale"], ["late", "ok"], ["stale", "ok"]):
+                scripts.append((op, [list(p1), list(p2)]))
+                scripts.append((op, [list(p1), list(p2), ["ok"]]))
     # thorough: exhaustive 3 requests with <= 1 datagram over the reduced set
     if tier != "quick":
         per1 = [[]] + [[k] for k in red]
